@@ -85,11 +85,60 @@ def gen_edge(rng):
     return case
 
 
+def gen_sb_large(rng):
+    """SlidingBoundariesArchive in float32 with measures of magnitude 10..1000 (epsilon is below their resolution):
+    oracle only -- the exact model assumes |m| <= 4 in float32 -- every elite must be found through its own
+    measures by batch and by single lookups alike, after every insertion and remap."""
+    nd = rng.choice([1, 1, 2])
+    return {"kind": "sb_large", "dims": [rng.choice([2, 3, 5]) for _ in range(nd)], "freq": rng.choice([3, 4, 7]),
+            "cap": rng.choice([3, 8, 50]), "dtype": rng.choice(["f32", "f32", "f64"]), "seed": rng.randrange(10**6),
+            "scale": rng.choice([40, 300, 1000]), "ops": [rng.randrange(10**6) for _ in range(rng.randint(8, 30))]}
+
+
+def run_sb_large(case):
+    import random
+    import numpy as np
+    from core import Failure
+    from ribs.archives import SlidingBoundariesArchive
+    dt = np.float32 if case["dtype"] == "f32" else np.float64
+    nd = len(case["dims"])
+    a = SlidingBoundariesArchive(solution_dim=1, dims=case["dims"], ranges=[(-case["scale"], case["scale"])] * nd,
+                                 remap_frequency=case["freq"], buffer_capacity=case["cap"], dtype=dt)
+    pool = []
+    for t, sd in enumerate(case["ops"]):
+        r = random.Random(sd)
+        if pool and r.random() < 0.4:
+            m = r.choice(pool)                                   # duplicates: boundaries land exactly on elites
+        else:
+            m = [r.randint(-8 * case["scale"], 8 * case["scale"]) / 8 for _ in range(nd)]
+            pool.append(m)
+        a.add_single([float(t)], float(r.randint(-9, 9)), m)
+        d = a.data()
+        if not len(d["index"]):
+            continue
+        ms = d["measures"]
+        idx = a.index_of(ms)
+        occ, got = a.retrieve(ms)
+        for k in range(len(ms)):
+            where = f"insertion {t} ({case['dtype']}, remap every {case['freq']}): elite with measures {ms[k].tolist()}"
+            if int(idx[k]) != int(d["index"][k]) or not occ[k] or int(got["index"][k]) != int(d["index"][k]):
+                return Failure("oracle", f"[C07] {where} is stored in cell {int(d['index'][k])} but a batch lookup of its "
+                               f"own measures gives cell {int(idx[k])}, occupied={bool(occ[k])}")
+            i1 = int(a.index_of_single(ms[k]))
+            o1, e1 = a.retrieve_single(ms[k])
+            if i1 != int(d["index"][k]) or not o1 or int(e1["index"]) != int(d["index"][k]):
+                return Failure("oracle", f"[C07] {where} is stored in cell {int(d['index'][k])}; the batch lookup finds it, "
+                               f"the single lookup gives cell {i1}, occupied={bool(o1)}")
+    return None
+
+
 def nontrivial(case):
     return any(op["op"] == "retrieve" and len(op["qs"]) >= 2 for op in case["ops"]) or case.get("profile") == "edge"
 
 
 def run_case(case):
+    if case.get("kind") == "sb_large":
+        return run_sb_large(case)
     return archdispatch.run_case(case, PROPS)
 
 
@@ -101,6 +150,7 @@ def run(ctx):
     # across SlidingBoundariesArchive remaps and ProximityArchive replacements / growth
     ctx.explore("sliding-remaps", archdispatch.gen_sliding, run_case, ctx.n(80, 6000), time_budget=budget)
     ctx.explore("proximity", archdispatch.gen_prox(), run_case, ctx.n(80, 6000), time_budget=budget)
+    ctx.explore("sliding-large-float32", gen_sb_large, run_case, ctx.n(60, 4000), time_budget=budget)
 
 
 def replay(ctx, case):
